@@ -363,6 +363,15 @@ fn match_arms_of(f: &syn::ImplItemFn) -> Vec<(String, String)> {
     v.0
 }
 
+fn render_tok(v: &Val) -> R<Term> {
+    match v {
+        Val::Tok(s) => Ok(Term::Str(s.split_whitespace().collect::<String>())),
+        Val::Str(t) => Ok(t.clone()),
+        Val::Ite(c, a, b) => Ok(Term::Ite(c.clone(), Box::new(render_tok(a)?), Box::new(render_tok(b)?))),
+        other => Err(format!("expected a constant path, got {}", short(other))),
+    }
+}
+
 fn render_result(v: &Val) -> R<Term> {
     match v {
         Val::Variant(p, a) if p.last().map(|s| s == "Ok").unwrap_or(false) => match a.first() {
@@ -390,6 +399,13 @@ fn extract_locale_enum(idx: &Index, enum_path: &AbsPath) -> J {
             .and_then(|(info, f)| ev.call_fn(info, f, None, vec![Val::Str(Term::Var("s".into()))]))
             .and_then(|v| render_result(&v));
         m.insert("from_str_term".into(), term_or_err(r));
+        for name in ["direction", "as_icu_locale"] {
+            let mut ev = Ev::new(idx);
+            let r = idx.find_method(enum_path, name, None).first().copied().ok_or(format!("no {}", name))
+                .and_then(|(info, f)| ev.call_fn(info, f, Some(Val::Loc(LocT::Sym)), vec![]))
+                .and_then(|v| render_tok(&v));
+            m.insert(format!("{}_term", name), term_or_err(r));
+        }
         let mut ev = Ev::new(idx);
         let r = idx.find_method(enum_path, "get_all", None).first().copied().ok_or("no get_all".to_string())
             .and_then(|(info, f)| ev.call_fn(info, f, None, vec![]));
